@@ -683,11 +683,28 @@ def _guess_order(c, fn):
     rets = rz.return_terms()
     n_par = [a.arg for a in fn.args.args[1:]]
     ok, why = False, f"returned term `{U(rets[0])[:200] if rets else None}`"
+    cost_is_negation = False
+    cfn_ = c.methods.get("cost")
+    if cfn_ is not None and len(cfn_.args.args) == 2:
+        ct_ = Resolver(cfn_).return_terms()
+        cost_is_negation = len(ct_) == 1 and str(U(ct_[0])) in (f"-self.__call__({cfn_.args.args[1].arg})", f"-self({cfn_.args.args[1].arg})")
+        call_ = c.methods.get("__call__")
+        if not cost_is_negation and call_ is not None and len(call_.args.args) == 2 and call_.args.args[1].arg == cfn_.args.args[1].arg:
+            kt_ = Resolver(call_).return_terms()
+            # the same expression with a minus sign in front
+            cost_is_negation = len(ct_) == 1 and len(kt_) == 1 and isinstance(ct_[0], ast.UnaryOp) and isinstance(ct_[0].op, ast.USub) \
+                and str(U(ct_[0].operand)) == str(U(kt_[0]))
     if len(rets) == 1:
         for n_g in n_par:
             for n_s in n_par:
                 for pt in (f"sorted([self.prior.sample() for _ in range({n_s})], key=self.cost)[:{n_g}]",
-                           f"sorted((self.prior.sample() for _ in range({n_s})), key=self.cost)[:{n_g}]"):
+                           f"sorted((self.prior.sample() for _ in range({n_s})), key=self.cost)[:{n_g}]",
+                           # heapq.nsmallest(n, it, key) is documented as sorted(it, key=key)[:n]
+                           f"nsmallest({n_g}, [self.prior.sample() for _ in range({n_s})], key=self.cost)",
+                           f"heapq.nsmallest({n_g}, [self.prior.sample() for _ in range({n_s})], key=self.cost)") + (
+                        # descending log-posterior = ascending cost when cost is its exact negation (a reversed sort keeps ties in order)
+                        (f"sorted([self.prior.sample() for _ in range({n_s})], key=self.__call__, reverse=True)[:{n_g}]",)
+                        if cost_is_negation else ()):
                     if n_g != n_s and pmatch(rets[0], pt) is not None:
                         ok = True
         # decorate - sort - undecorate: the draws held in a local D, ranked through (cost, position) pairs (ties keep the earlier draw,
